@@ -56,9 +56,44 @@ def gen(rng, tier):
         if len(ops) > 1:
             yield tab.line(ops)
 
+def words_of(be, t, v):
+    k = 2 * TSIZE[t]
+    bs = [(v >> (8 * i)) & 255 for i in range(k)]
+    if be:
+        bs = bs[::-1]
+    return [bs[2 * i] | (bs[2 * i + 1] << 8) for i in range(TSIZE[t])]
+
+def typed_grid(rng, big):
+    """every register type x every constraint kind x both byte orders: block writes that cover the register fully (every boundary
+    value, all float classes) and partially (each proper sub-window, old words kept), with unconstrained neighbours"""
+    for t in range(8):
+        for be in (0, 1):
+            for ck_kind in range(6):
+                ck = rand_check(rng, t, ck_kind)
+                size = TSIZE[t] + 2
+                kind = rng.choice([MEM, MEM, CUSTOM])
+                d = acceptable_default(rng, t, ck)
+                entries = [(0, 7, 100, 0, 0, 0), (t, d, 101, ck[0], ck[1], ck[2]), (0, 9, 101 + TSIZE[t], 0, 0, 0)]
+                tab = Table(be, [(100, size, 3, kind)], entries, [rng.randrange(65536) for _ in range(size)])
+                ops = [(0,)]
+                vals = boundary_values(rng, t, ck, 8 if big else 3)
+                for v in vals:
+                    ws = words_of(be, t, v)
+                    ops.append((6, 101, TSIZE[t]) + tuple(ws))
+                    ops.append((6, 100, size, 1) + tuple(ws) + (2,))
+                    for lo in range(TSIZE[t]):
+                        for hi in range(lo + 1, TSIZE[t] + 1):
+                            if (lo, hi) != (0, TSIZE[t]) and rng.random() < (1.0 if big else 0.4):
+                                ops.append((6, 101 + lo, hi - lo) + tuple(ws[lo:hi]))
+                    if len(ops) > 300:
+                        yield tab.line(ops); ops = [(0,)]
+                if len(ops) > 1:
+                    yield tab.line(ops)
+
 _gen0 = gen
 def gen(rng, tier):
     yield from _gen0(rng, tier)
+    yield from typed_grid(rng, tier == 'thorough')
     # a sanitise that ends early, then block writes over every register (always-fail ones included)
     yield from stale_state_histories(rng, 200 if tier == 'thorough' else 40)
 
